@@ -2,6 +2,7 @@
 FUNC_UNITS = ['asmjit/core/func.cpp', 'asmjit/core/archtraits.cpp', 'asmjit/core/type.cpp', 'asmjit/x86/x86func.cpp', 'asmjit/arm/a64func.cpp']
 UNITS = [
     Unit('classify', harness=['h_classify.cpp'], repo_units=FUNC_UNITS),
+    Unit('argmove', harness=['h_argmove.cpp'], repo_units=['asmjit/x86/x86emithelper.cpp', 'asmjit/core/archtraits.cpp', 'asmjit/core/type.cpp', 'asmjit/core/environment.cpp']),
     Unit('shuffle', harness=['h_shuffle.cpp'], repo_units=['asmjit/core/emithelper.cpp', 'asmjit/core/funcargscontext.cpp', 'asmjit/core/func.cpp', 'asmjit/core/archtraits.cpp', 'asmjit/core/type.cpp', 'asmjit/core/environment.cpp'], ubsan=False, debug_asserts=False),
 ]
 TYPES_X86 = 'every argument and the return type symbolic over {intptr, uintptr, i8..u64, f32, f64, mmx64, mask8..64, all 10 element kinds of vec128/256/512}'
@@ -18,15 +19,10 @@ HARNESSES = [
     HC('h_apple64_12', 12, 'Apple arm64 (Darwin ABI)'),
     HC('h_light32_8', 8, 'light-call 2-4 on x86-32 (AsmJit only: internal consistency)'),
     HC('h_light64_8', 8, 'light-call 2-4 on x86-64 (AsmJit only: internal consistency)'),
-    Harness('shuffle', 'h_shuffle_probe', unwind=6, bounds='tbd', mem_gb=6, timeout=900),
-    Harness('shuffle', 'h_shuffle_x64_gp2', unwind=8, bounds='tbd', mem_gb=6, timeout=900),
-    Harness('shuffle', 'h_shuffle_x64_gp3', unwind=8, bounds='tbd', mem_gb=6, timeout=900),
-    Harness('shuffle', 'h_shuffle_x64_gp4', unwind=8, bounds='tbd', mem_gb=6, timeout=900),
-    Harness('shuffle', 'h_shuffle_x64_vec3', unwind=8, bounds='tbd', mem_gb=6, timeout=900),
-    Harness('shuffle', 'h_shuffle_x64_vec4', unwind=8, bounds='tbd', mem_gb=6, timeout=900),
-    Harness('shuffle', 'h_shuffle_a64_gp3', unwind=8, bounds='tbd', mem_gb=6, timeout=900),
-    Harness('shuffle', 'h_shuffle_a64_gp4', unwind=8, bounds='tbd', mem_gb=6, timeout=900),
-    Harness('shuffle', 'h_shuffle_a64_vec4', unwind=8, bounds='tbd', mem_gb=6, timeout=900),
+    Harness('shuffle', 'h_shuffle_x64_gp2', unwind=8, bounds='tbd', mem_gb=8, timeout=900, tiers=('thorough',)),
+    Harness('argmove', 'h_argmove_x64_int', unwind=6, bounds='x86-64: destination and source type over i8..u64 (64 pairs), source in any GP register or on the stack, any destination register, SSE/AVX mode', mem_gb=4, timeout=600),
+    Harness('argmove', 'h_argmove_x64_fp', unwind=6, bounds='x86-64: destination type float32x1, float64x1, float32x4; source type float32, float64, float32x1, float64x1, float32x4; source in any xmm register or on the stack; SSE/AVX mode; the whole harness lies in the region of known finding C06J (no native twin comparison: the real code evaluates ctz(0), undefined behaviour)', known='C06J', validate_runs=0, mem_gb=4, timeout=600),
+    Harness('argmove', 'h_argmove_x64_kf_C06I', unwind=6, bounds='region of known finding C06I (float32 <-> float64 conversion)', known='C06I', validate_runs=0, mem_gb=4, timeout=600),
     HC('h_sysv64_kf_D6', 12, 'region of known finding D6', known='D6'),
     # no native twin comparison: inside the region the real code reads out of bounds (undefined behaviour), the encoded code stops at the UBSan trap
     HC('h_win64_kf_D7', 17, 'region of known finding D7 (17 arguments, a by-reference vector at index 16)', known='D7', mem=6, validate_runs=0),
